@@ -219,9 +219,10 @@ def none_rule(ctx, R):
         if not pn:
             continue
         R.saw(f)
-        bad = [b for b in none_analysis(ctx, f) if not any(re.search(fr, q) and b[2] == pr for fr, pr, _ in NONE_TABLE)]
-        for fr, pr, reason in NONE_TABLE:
-            if re.search(fr, q) and pr in pn:
+        table = [(fr, f.params[pi], reason) for fr, pi, reason in NONE_TABLE if re.search(fr, q) and pi < len(f.params)]
+        bad = [b for b in none_analysis(ctx, f) if not any(b[2] == pr for fr, pr, _ in table)]
+        for fr, pr, reason in table:
+            if pr in pn:
                 # re-verify the reason: the reassignment under `if method:` / `if (method := ...):` still exists and the tested
                 # value still comes from tickMethod()
                 def _tested(x):
@@ -252,9 +253,10 @@ def none_rule(ctx, R):
     R.check(n >= 10, "C11.NONE.inventory", "None-default parameters examined: %d" % n, "", "", "too few None-default parameters found", nontrivial=False)
 
 
+# (function, index of the parameter among its positional parameters, reason)
 NONE_TABLE = [
-    (r"^scale\.TimeScale\.ticks$", "skip", "tickMethod() always returns a two-element list, so `if method:` always assigns skip"),
-    (r"^scale\.TimeScale\.ticks$", "interval", "tickMethod() always returns a two-element list, so `if method:` always assigns interval"),
+    (r"^scale\.TimeScale\.ticks$", 2, "tickMethod() always returns a two-element list, so `if method:` always assigns skip"),
+    (r"^scale\.TimeScale\.ticks$", 1, "tickMethod() always returns a two-element list, so `if method:` always assigns interval"),
 ]
 
 # ---------------------------------------------------------------------------
@@ -263,26 +265,71 @@ NONE_TABLE = [
 
 # (function qual regex, denominator text regex) -> reason (contract / positive-by-construction)
 DIV_TABLE = [
-    (r"(^|\.)Distributor\.algorithm_simple$", r"^numLayers$", "algorithm_simple runs only when needToSplit(): estimateRequiredLayers() > 1 (C04.DISTRIBUTE)"),
-    (r"(^|\.)Distributor\.estimateRequiredLayers$", r"^self\.maxWidthPerLayer\(\)$", "guarded by `if layerWidth` and density > 0 (documented)", "self.options['layerWidth']"),
-    (r"(^|\.)TimeScale\.tickMethod$", r"^count$", "documented contract: tick count >= 1"),
-    (r"(^|\.)TimeScale\.tickMethod$", r"^target$", "reached only with i >= 1 (the `not i` branch returns first), i.e. target >= steps[0] > 0 (C16.CHOICE)"),
-    (r"(^|\.)TimeScale\.tickMethod$", r"^d3_time_scaleSteps\[i - 1\]$", "table constants are positive (C16.TABLES)"),
-    (r"(^|\.)d3TimeScaleMilliseconds\.range$", r"^int\(step\)$", "ticks() passes a step >= 1 (C16.SUBMS)"),
-    (r"(^|\.)d3_scale_linearTickRange$", r"^step$", "step = 10^k x {1,2,5,10} > 0 by construction (C13.P125)"),
-    (r"(^|\.)d3_scale_linearTickRange$", r"^m$", "documented contract: tick count >= 1"),
-    (r"(^|\.)colorFunc$", r"^len\(self\.options\[colorName\]\)$", "documented contract: a colour list is non-empty"),
-    (r"^vpsc\.", r"^(v|self)\.scale$", "documented contract: variable scales are positive"),
-    (r"^vpsc\.PositionStats\.getPosn$", r"^self\.A2$", "A2 = sum of weight*(scale ratio)^2 over >= 1 variable, positive for positive weights"),
+    (r"(^|\.)Distributor\.algorithm_simple$", r"^numLayers$|^def:self\.estimateRequiredLayers\(", "algorithm_simple runs only when needToSplit(): estimateRequiredLayers() > 1 (C04.DISTRIBUTE)"),
+    (r"(^|\.)Distributor\.estimateRequiredLayers$", r"^{p0}\.maxWidthPerLayer\(\)$", "guarded by `if layerWidth` and density > 0 (documented)", "{p0}.options['layerWidth']"),
+    (r"(^|\.)TimeScale\.tickMethod$", r"^{p2}$", "documented contract: tick count >= 1"),
+    (r"(^|\.)TimeScale\.tickMethod$", r"^target$|^def:.* / {p2}$", "reached only with i >= 1 (the `not i` branch returns first), i.e. target >= steps[0] > 0 (C16.CHOICE)"),
+    (r"(^|\.)TimeScale\.tickMethod$", r"^d3_time_scaleSteps\[(i|<local>) - 1\]$", "table constants are positive (C16.TABLES)"),
+    (r"(^|\.)d3TimeScaleMilliseconds\.range$", r"^int\({p3}\)$", "ticks() passes a step >= 1 (C16.SUBMS)"),
+    (r"(^|\.)d3_scale_linearTickRange$", r"^step$|^def:pow\(10, ", "step = 10^k x {1,2,5,10} > 0 by construction (C13.P125)"),
+    (r"(^|\.)d3_scale_linearTickRange$", r"^{p1}$", "documented contract: tick count >= 1"),
+    (r"(^|\.)colorFunc$", r"^len\({p0}\.options\[{p1}\]\)$", "documented contract: a colour list is non-empty"),
+    (r"^vpsc\.", r"^\w+\.scale$", "documented contract: variable scales are positive"),
+    (r"^vpsc\.PositionStats\.getPosn$", r"^{p0}\.A2$", "A2 = sum of weight*(scale ratio)^2 over >= 1 variable, positive for positive weights"),
     (r"(^|\.)d3_scale_linearTickRange$", r"^math\.log\(10\)$", "constant"),
     (r"(^|\.)d3_scale_linearPrecision$", r"^math\.log\(10\)$", "constant"),
 ]
 LOG_TABLE = [
-    (r"(^|\.)d3_scale_linearTickRange$", r"^span / m$", "span > 0 after the `span == 0` return (extent ascending), m >= 1"),
+    (r"(^|\.)d3_scale_linearTickRange$", r"^(span|<local>) / {p1}$", "span > 0 after the `span == 0` return (extent ascending), m >= 1"),
     (r"(^|\.)d3_scale_linearTickRange$", r"^10$", "constant"),
-    (r"(^|\.)d3_scale_linearPrecision$", r"^value$", "guarded by `if not value`; value is a tick step > 0"),
+    (r"(^|\.)d3_scale_linearPrecision$", r"^{p0}$", "guarded by `if not value`; value is a tick step > 0"),
     (r"(^|\.)d3_scale_linearPrecision$", r"^10$", "constant"),
 ]
+
+
+def _pfmt(pat, f, esc=True):
+    """Fill the placeholders {p0}, {p1}, ... of a table pattern with the names of f's positional parameters (receiver
+    included), so that the tables speak about parameters by position, not by name."""
+    if "{p" not in pat:
+        return pat
+    ps = list(f.params) if f is not None else []
+    m = {"p%d" % i: (re.escape(n) if esc else n) for i, n in enumerate(ps)}
+    for i in range(len(ps), 8):
+        m["p%d" % i] = "\\0never" if esc else "<no such parameter>"
+    try:
+        return pat.format(**m)
+    except (KeyError, IndexError, ValueError):
+        return pat
+
+
+def _role_texts(ctx, f, e):
+    """Spellings of an expression that do not depend on what its local variables are called: `def:<rhs>` for each plain
+    assignment to a local name (locals inside the right-hand side resolved where they have one definition), and the
+    expression with every local that is not a parameter written `<local>`."""
+    import copy
+
+    out = set()
+    if f is None or f.is_lambda:
+        return out
+    params = set(f.params) | set(f.kwonly) | ({f.vararg} if f.vararg else set()) | ({f.kwarg} if f.kwarg else set())
+    stores = {n.id for n in walk_local(f.node) if isinstance(n, ast.Name) and isinstance(n.ctx, ast.Store)} - params
+    if isinstance(e, ast.Name) and e.id in stores:
+        for n in walk_local(f.node):
+            if isinstance(n, ast.Assign) and len(n.targets) == 1 and isinstance(n.targets[0], ast.Name) and n.targets[0].id == e.id:
+                out.add("def:" + resolve_local(f, n.value))
+                out.add("def:" + ntext(n.value))
+
+    class Sub(ast.NodeTransformer):
+        def visit_Name(self, node):
+            if node.id in stores:
+                return ast.copy_location(ast.Name(id="LOCAL__", ctx=node.ctx), node)
+            return node
+
+    try:
+        out.add(ntext(Sub().visit(copy.deepcopy(e))).replace("LOCAL__", "<local>"))
+    except Exception:
+        pass
+    return out
 
 
 def _local_guards(node, stop):
@@ -490,13 +537,14 @@ def divzero_sites(ctx, R, rule_id, reach):
             top = f
             while top.parent is not None:
                 top = top.parent
-            dtexts = {ntext(den), resolve_local(f, den), resolve_local(top, den)}
+            dtexts = {ntext(den), resolve_local(f, den), resolve_local(top, den)} | _role_texts(ctx, f, den) | _role_texts(ctx, top, den)
             for ent in DIV_TABLE:
                 fr, dr, reason = ent[:3]
+                dr = _pfmt(dr, f)
                 if re.search(fr, q) and any(re.search(dr, dt_) for dt_ in dtexts):
                     if len(ent) > 3:
                         # the reason names a guard: it must dominate the division
-                        gd = _nonzero_guard(ctx, f, nd, _reparse(ent[3]))
+                        gd = _nonzero_guard(ctx, f, nd, _reparse(_pfmt(ent[3], f, esc=False)))
                         if not gd:
                             continue
                         reason = reason + "; " + gd
@@ -529,7 +577,8 @@ def divzero(ctx, R):
                     if _const_expr(a, f.module) is True:
                         continue
                     for fr, ar, reason in LOG_TABLE:
-                        if re.search(fr, q) and (re.search(ar, ntext(a)) or re.search(ar, resolve_local(f, a))):
+                        ar = _pfmt(ar, f)
+                        if re.search(fr, q) and (re.search(ar, ntext(a)) or re.search(ar, resolve_local(f, a)) or any(re.search(ar, t_) for t_ in _role_texts(ctx, f, a))):
                             hit = reason
                     if hit and "guarded" in hit:
                         g = _nonzero_guard(ctx, f, nd, a)
@@ -1370,7 +1419,8 @@ def degenerate(ctx, R):
     from ..normalise import desugar_itertools
 
     ws = [n for n in desugar_itertools(h.node.body)[0] if isinstance(n, ast.While)]
-    ok = len(ws) == 1 and isinstance(ws[0].test, ast.Compare) and isinstance(ws[0].test.ops[0], ast.Lt)
+    ok = len(ws) == 1 and isinstance(ws[0].test, ast.Compare) and len(ws[0].test.ops) == 1 and (
+        (isinstance(ws[0].test.ops[0], ast.Lt) and ntext(ws[0].test.comparators[0]) == h.params[1]) or (isinstance(ws[0].test.ops[0], ast.Gt) and ntext(ws[0].test.left) == h.params[1]))
     R.check(ok, "C11.DEGENERATE", "tick generator on (a, a, 0)", where(h), "strict `<` test: an empty range yields no tick and terminates", "the tick generator does not test `r < stop` strictly: the degenerate range (a, a, 0) would loop forever or divide")
 
 
